@@ -61,6 +61,8 @@ ASSUME = [
     "for two parents / diamonds the reference resolver implements the rule documented in compiler.c (the latest inherit with a definition "
     "wins; '::f' takes the first parent in which a definition is found); visibility of functions restricted only by an inherit "
     "modifier: call_other must not run them (reference model of copy_function's typemod rule)",
+    "a cache slot left half-filled by an error is observable only while nothing evicts it: with the 2-entry cache the master's error_handler "
+    "apply often lands in the same slot, so the value-stack letter is decisive in the parts with the 2048-entry cache",
     "the 14 compression shapes are run only in the ASan builds (a corrupted table crashes the plain build without attribution)",
 ]
 
@@ -105,7 +107,7 @@ def run(ck):
     if ck.tier == "quick":
         ck.enum(ex["h_c07_small_plain"], ["--len=2", "--prune-depth=8", "--salts=1", "--no-compress=1", "--extra=1"], "small-l2", batch=1, deadline_s=70, timeout_ms=T)
         ck.enum(ex["h_c07_small"], ["--len=1", "--salts=1", "--deep=0", "--extra=0"], "small-l1-asan", batch=1, deadline_s=50, timeout_ms=T)
-        ck.enum(ex["h_c07_full_plain"], ["--len=2", "--salts=1", "--no-compress=1", "--extra=0"], "full-l2", batch=1, deadline_s=42, timeout_ms=T)
+        ck.enum(ex["h_c07_full_plain"], ["--len=2", "--salts=1", "--no-compress=1", "--extra=1"], "full-l2", batch=1, deadline_s=42, timeout_ms=T)
         ck.enum(ex["h_c07_small"], ["--len=1", "--salts=1", "--bin=1", "--deep=0", "--extra=0"], "bin-l1", batch=1, deadline_s=50, timeout_ms=T)
     else:
         ck.enum(ex["h_c07_small"], ["--len=2", "--prune-depth=8", "--salts=4", "--extra=2"], "small-l2-s4", batch=1, deadline_s=500, timeout_ms=T)
